@@ -324,6 +324,7 @@ func (r *readerRun) concretise() []byte {
 	}
 	// encode
 	var stream []byte
+	swallowed := false
 	for i := range r.cf {
 		f := &r.cf[i]
 		f.Len = len(f.payload)
@@ -353,8 +354,16 @@ func (r *readerRun) concretise() []byte {
 		b := wire.Encode(wf)
 		f.start = len(stream)
 		f.hdrLen = len(b) - len(f.payload)
-		stream = append(stream, b...)
+		if !swallowed {
+			stream = append(stream, b...)
+		}
 		f.end = len(stream)
+		if f.Lk != "n" {
+			// A frame declaring a huge length swallows everything after it:
+			// nothing that follows is distinguishable from its payload, so it
+			// is the last frame actually sent.
+			swallowed = true
+		}
 	}
 	return stream
 }
@@ -493,6 +502,7 @@ func RunReader(p *RProg) (evs []Ev) {
 	}
 	sc := xport.New(chunks)
 	sc.EndErr = ferr
+	sc.QuietReads = true
 
 	// arrival annotation
 	frs := make([]Ev, len(r.cf))
@@ -502,6 +512,8 @@ func RunReader(p *RProg) (evs []Ev) {
 		pgot := len(f.payload)
 		h2, hdrOK := true, true
 		switch {
+		case f.end == f.start:
+			arr, h2, hdrOK, pgot = "none", false, false, 0
 		case f.end <= failStart && f.Lk == "n":
 			arr = "full"
 		case f.end <= cutOff && f.Lk == "n":
@@ -528,7 +540,7 @@ func RunReader(p *RProg) (evs []Ev) {
 		}
 		frs[i] = Ev{"op": f.Op, "fin": f.Fin, "r1": f.R1, "r2": f.R2, "r3": f.R3, "mk": f.Mk,
 			"len": len(f.payload), "lk": f.Lk, "min": !f.NonMin, "code": code, "utf8": u8,
-			"arr": arr, "h2": h2, "hdrOK": hdrOK, "pgot": pgot}
+			"arr": arr, "h2": h2, "hdrOK": hdrOK, "pgot": pgot, "plain": f.Plain, "comp": f.Comp != ""}
 	}
 	policy := "per_message"
 	evs = append(evs, Ev{"e": "Reset", "tid": p.ID,
